@@ -220,8 +220,19 @@ Definition kind_str (k : hkind) : string :=
   | HAroundBefore => "ab" | HGuard => "g" | HUnless => "u"
   | HBefore => "b" | HAfter => "a" | HAroundAfter => "aa"
   end.
+(* a condition hook cannot know whether it was consulted as a guard or as an unless-condition: the
+   instrumented hook logs "g" iff its name occurs in some guards list of the definition; the model's
+   line uses the same rule (the structured trace keeps the real kind) *)
+Definition guard_names : list ident :=
+  flat_map (fun gi => flat_map (fun gm => flat_map (fun s => match s with SCond true n _ _ _ _ => [n] | _ => [] end) (gm_body gm))
+                               (gi_methods gi)) (gr_impls g).
+Definition logged_kind (c : call) : string :=
+  match c_kind c with
+  | HGuard | HUnless => if mem (c_name c) guard_names then "g" else "u"
+  | k => kind_str k
+  end.
 Definition call_str (c : call) : string :=
-  kind_str (c_kind c) +++ "." +++ c_name c +++ "." +++ c_state c +++ "." +++
+  logged_kind c +++ "." +++ c_name c +++ "." +++ c_state c +++ "." +++
   join "/" (map opt_str (c_slots c)) +++ "." +++ nat_str (c_ctx c) +++ "." +++ opt_str (c_pl c)
   +++ (if c_done c then "" else "!").
 Definition akind_str (k : akind) : string :=
